@@ -1313,6 +1313,192 @@ mut("C14", "entry_state_standard_cconv", FS, """                    let calling_
                         .get_standard_calling_convention()
                         .expect("No standard calling convention found.");""", ["R1|generate_fixpoint_computation|entry-state"], "entry state from the standard calling convention")
 
+# ---------------- C13
+VSP = L + "analysis/pointer_inference/state/value_specialization.rs"
+FXP = L + "analysis/forward_interprocedural_fixpoint.rs"
+PICTX = L + "analysis/pointer_inference/context/trait_impls.rs"
+mut("C13", "sless_lhs_const_unsigned_bound", VSP, """                    lhs_bound += &Bitvector::one(lhs_bound.width());
+                    let new_result = self
+                        .eval(rhs)
+                        .without_widening_hints()
+                        .add_signed_greater_equal_bound(&lhs_bound)?;""", """                    lhs_bound += &Bitvector::one(lhs_bound.width());
+                    let new_result = self
+                        .eval(rhs)
+                        .without_widening_hints()
+                        .add_unsigned_greater_equal_bound(&lhs_bound)?;""", ["R1|cmp|lhs const|IntSLess|bound-method"], "signed < refined with an unsigned bound")
+mut("C13", "less_rhs_const_no_decrement", VSP, """                    if rhs_bound == Bitvector::zero(rhs_bound.width()) {
+                        return Err(anyhow!("Unsatisfiable bound"));
+                    }
+                    rhs_bound -= &Bitvector::one(rhs_bound.width());""", """                    if rhs_bound == Bitvector::zero(rhs_bound.width()) {
+                        return Err(anyhow!("Unsatisfiable bound"));
+                    }""", ["R1|cmp|rhs const|IntLess|moved-by-one"], "x <u c refined as x <=u c")
+mut("C13", "slessequal_rhs_const_decrement", VSP, """                IntSLessEqual => {
+                    let new_result = self
+                        .eval(lhs)
+                        .without_widening_hints()
+                        .add_signed_less_equal_bound(&rhs_bound)?;""", """                IntSLessEqual => {
+                    rhs_bound -= &Bitvector::one(rhs_bound.width());
+                    let new_result = self
+                        .eval(lhs)
+                        .without_widening_hints()
+                        .add_signed_less_equal_bound(&rhs_bound)?;""", ["R1|cmp|rhs const|IntSLessEqual|moved-by-one"], "x <=s c refined as x <=s c-1: c itself is dropped")
+mut("C13", "sless_rhs_const_guard_max", VSP, "                    if rhs_bound == Bitvector::signed_min_value(rhs_bound.width()) {", "                    if rhs_bound == Bitvector::signed_max_value(rhs_bound.width()) {", ["R1|cmp|rhs const|IntSLess|extreme-guard"], "guard tests the wrong extreme")
+mut("C13", "less_lhs_const_writes_lhs", VSP, """                        .add_unsigned_greater_equal_bound(&lhs_bound)?;
+                    self.specialize_by_expression_result(rhs, new_result)?;
+                }
+                IntLessEqual => {""", """                        .add_unsigned_greater_equal_bound(&lhs_bound)?;
+                    self.specialize_by_expression_result(lhs, new_result)?;
+                }
+                IntLessEqual => {""", ["R1|cmp|lhs const|IntLess|written-back-to"], "refined value written to the constant side")
+mut("C13", "negation_maps_less_to_less", VSP, "                            IntLess => IntLessEqual,", "                            IntLess => IntLess,", ["R2|negation|IntLess"], "!(a<b) refined as b<a")
+mut("C13", "negation_on_true", VSP, """                    if result_bitvec.is_zero() {
+                        std::mem::swap(&mut left_expr, &mut right_expr);""", """                    if !result_bitvec.is_zero() {
+                        std::mem::swap(&mut left_expr, &mut right_expr);""", ["R2|negation|only-for-false"], "mirroring applied to true comparisons")
+mut("C13", "notequal_true_as_equal", VSP, """                        (BinOpType::IntEqual, true) | (BinOpType::IntNotEqual, false) => {
+                            // lhs == rhs""", """                        (BinOpType::IntEqual, true) | (BinOpType::IntNotEqual, true) => {
+                            // lhs == rhs""", ["R3|equality|eq-branch|cases"], "x != c taken as x == c")
+mut("C13", "add_inverse_uses_add", VSP, "                let intermediate_result = result.clone() - self.eval(lhs).without_widening_hints();", "                let intermediate_result = result.clone() + self.eval(lhs).without_widening_hints();", ["R4|IntAdd|rhs"], "rhs = result + lhs for an addition")
+mut("C13", "sub_inverse_swapped", VSP, """                let intermediate_result: Data =
+                    self.eval(lhs).without_widening_hints() - result.clone();""", """                let intermediate_result: Data =
+                    result.clone() - self.eval(lhs).without_widening_hints();""", ["R4|IntSub|rhs"], "rhs = result - lhs for a subtraction")
+mut("C13", "or_forces_on_nonzero", VSP, """                BinOpType::IntOr | BinOpType::BoolOr => {
+                    if result_bitvec.is_zero() {""", """                BinOpType::IntOr | BinOpType::BoolOr => {
+                    if !result_bitvec.is_zero() {""", ["R5|IntOr/BoolOr|both-forced|case"], "a|b != 0 forces both operands")
+mut("C13", "and_known_operand_zero", VSP, """                    } else if self
+                        .eval(lhs)
+                        .try_to_bitvec()
+                        .map_or(false, |bitvec| !bitvec.is_zero())
+                    {
+                        self.specialize_by_expression_result(rhs, result_bitvec.into())""", """                    } else if self
+                        .eval(lhs)
+                        .try_to_bitvec()
+                        .map_or(false, |bitvec| bitvec.is_zero())
+                    {
+                        self.specialize_by_expression_result(rhs, result_bitvec.into())""", ["R5|BoolAnd|lhs-known|neutral-element"], "a & b = 0 with a == 0 forces b = 0")
+mut("C13", "fixpoint_polarity_swapped", FXP, """                        condition,
+                        block,
+                        true,
+                    )""", """                        condition,
+                        block,
+                        false,
+                    )""", ["R6|fixpoint|taken-jump"], "taken branch refined with false")
+mut("C13", "context_negates_is_true", PICTX, "            .specialize_by_expression_result(condition, Bitvector::from_u8(is_true as u8).into())", "            .specialize_by_expression_result(condition, Bitvector::from_u8(!is_true as u8).into())", ["R6|context|constant"], "condition refined to the negation")
+mut("C13", "context_unreachable_on_ok", PICTX, """            Ok(_) => Some(specialized_state),
+            // State is unsatisfiable
+            Err(_) => None,""", """            Ok(_) => None,
+            // State is unsatisfiable
+            Err(_) => Some(specialized_state),""", ["R6|context|unreachable-only-if-unsatisfiable"], "satisfiable branches are unreachable")
+mut("C13", "SILENT_lesseq_arms_merged", VSP, """                IntLessEqual => {
+                    let new_result = self
+                        .eval(lhs)
+                        .without_widening_hints()
+                        .add_unsigned_less_equal_bound(&rhs_bound)?;
+                    self.specialize_by_expression_result(lhs, new_result)?;
+                }
+                _ => panic!(),
+            }
+        }
+        Ok(())""", """                IntLessEqual => {
+                    let bounded = self.eval(lhs).without_widening_hints();
+                    let new_result = bounded.add_unsigned_less_equal_bound(&rhs_bound)?;
+                    self.specialize_by_expression_result(lhs, new_result)?;
+                }
+                _ => panic!(),
+            }
+        }
+        Ok(())""", [], "temporary introduced")
+
+# ---------------- C06
+CI = L + "abstract_domain/character_inclusion.rs"
+BRK = L + "abstract_domain/bricks.rs"
+BR1 = L + "abstract_domain/bricks/brick.rs"
+WID = L + "abstract_domain/bricks/widening.rs"
+mut("C06", "ci_merge_certain_union", CI, """                self_certain.intersection(other_certain),
+                self_possible.union(other_possible),""", """                self_certain.union(other_certain),
+                self_possible.union(other_possible),""", ["R1|ci-merge|certain"], "certain characters of a join are the union")
+mut("C06", "ci_merge_possible_intersection", CI, """                self_certain.intersection(other_certain),
+                self_possible.union(other_possible),""", """                self_certain.intersection(other_certain),
+                self_possible.intersection(other_possible),""", ["R1|ci-merge|possible"], "possible characters of a join are the intersection")
+mut("C06", "ci_merge_possible_self_twice", CI, "                self_possible.union(other_possible),\n            ))\n        }\n    }\n\n    /// Check if the value is *Top*.", "                self_possible.union(self_possible.clone()),\n            ))\n        }\n    }\n\n    /// Check if the value is *Top*.", ["R1|ci-merge|possible"], "possible set ignores other")
+mut("C06", "ci_append_top_keeps_nothing", CI, """                CharacterInclusionDomain::Top => {
+                    CharacterInclusionDomain::Value((self_certain.clone(), CharacterSet::Top))
+                }""", """                CharacterInclusionDomain::Top => {
+                    CharacterInclusionDomain::Value((self_certain.clone(), self_possible.clone()))
+                }""", ["R2|ci-append|Value-Top|possible"], "appending Top keeps the possible set")
+mut("C06", "charset_union_not_absorbing", CI, """        if self.is_top() || other.is_top() {
+            return CharacterSet::Top;
+        }
+
+        CharacterSet::Value(""", """        if self.is_top() && other.is_top() {
+            return CharacterSet::Top;
+        }
+
+        CharacterSet::Value(""", ["R3|CharacterSet::union|top-absorbing"], "union with Top is not Top")
+mut("C06", "bricks_append_reversed", BRK, """                BricksDomain::Value(other_bricks) => {
+                    let mut new_bricks = bricks.clone();
+                    new_bricks.append(&mut other_bricks.clone());
+                    BricksDomain::Value(new_bricks)""", """                BricksDomain::Value(other_bricks) => {
+                    let mut new_bricks = other_bricks.clone();
+                    new_bricks.append(&mut bricks.clone());
+                    BricksDomain::Value(new_bricks)""", ["R4|bricks-append|Value-Value"], "appended bricks come first")
+mut("C06", "bricks_append_top_dropped", BRK, """                BricksDomain::Top => {
+                    let mut new_bricks = bricks.clone();
+                    new_bricks.push(BrickDomain::Top);
+                    BricksDomain::Value(new_bricks)""", """                BricksDomain::Top => {
+                    let new_bricks = bricks.clone();
+                    BricksDomain::Value(new_bricks)""", ["R4|bricks-append|Value-Top"], "an appended unknown string is dropped")
+mut("C06", "brick_join_min_is_max", WID, "        let min_bound = min(self_brick.get_min(), other_brick.get_min());", "        let min_bound = max(self_brick.get_min(), other_brick.get_min());", ["R5|brick-join|min"], "min of a join is the max of the mins")
+mut("C06", "brick_join_strings_intersection", WID, """            .get_sequence()
+            .union(other_brick.get_sequence())""", """            .get_sequence()
+            .intersection(other_brick.get_sequence())""", ["R5|brick-join|strings"], "strings of a join are the intersection")
+mut("C06", "brick_join_threshold_narrow", WID, """            widened_brick.set_min(0);
+            widened_brick.set_max(u32::MAX);""", """            widened_brick.set_min(0);
+            widened_brick.set_max(INTERVAL_THRESHOLD as u32);""", ["R5|brick-join|max|threshold"], "widening caps max at the threshold")
+mut("C06", "equal_content_max_not_added", BR1, "            max: self.max + other.max,", "            max: self.max.max(other.max),", ["R6|equal-content|max"], "max of two concatenated bricks is not the sum")
+mut("C06", "break_rest_max_wrong", BR1, "            max: self.max - self.min,\n        };", "            max: self.max,\n        };", ["R6|break|rest-max"], "rest keeps max: normalisation changes (grows) the represented language")
+mut("C06", "bound_one_reversed", BR1, "            .map(|&(str1, str2)| str1.clone() + str2)", "            .map(|&(str1, str2)| str2.clone() + str1)", ["R6|bound-one|concatenation-order"], "strings concatenated in reverse order")
+
+# ---------------- round-4 additions
+MAINRS = "src/caller/src/main.rs"
+mut("C21", "pi_not_implied_by_string_abstraction", MAINRS, """    let pi_analysis_needed = string_abstraction_needed
+        || modules
+            .iter()
+            .any(|module| modules_depending_on_pointer_inference.contains(&module.name));""", """    let pi_analysis_needed = modules
+        .iter()
+        .any(|module| modules_depending_on_pointer_inference.contains(&module.name));""", ["R2|implies|string_abstraction=>pointer_inference"], "pointer inference no longer scheduled for CWE78 alone")
+mut("C21", "SILENT_pi_table_contains_cwe78", MAINRS, """        "CWE119", "CWE134", "CWE190", "CWE252", "CWE337", "CWE416", "CWE476", "CWE789", "Memory",
+    ]);""", """        "CWE119", "CWE134", "CWE190", "CWE252", "CWE337", "CWE416", "CWE476", "CWE78", "CWE789", "Memory",
+    ]);""", [], "CWE78 additionally listed in the pointer-inference table: harmless")
+mut("C22", "lkm_list_as_string", L + "checkers.rs", """pub const MODULES_LKM: [&str; 10] = [
+    "CWE134", "CWE190", "CWE215", "CWE252", "CWE416", "CWE457", "CWE467", "CWE476", "CWE676",
+    "CWE789",
+];""", """pub const MODULES_LKM: &str =
+    "CWE134,CWE190,CWE215,CWE252,CWE416,CWE457,CWE467,CWE476,CWE676,CWE789";""", ["R2|lkm-membership-is-exact"], "kernel-module list as one string: contains becomes a substring search")
+GU = L + "utils/graph_utils.rs"
+M.append(("C23", "reachability_worklist_hashset", {"edits": [
+    {"file": GU, "find": "    let mut worklist = vec![source_node];", "replace": "    let mut worklist = HashSet::from([source_node]);"},
+    {"file": GU, "find": "    while let Some(node) = worklist.pop() {", "replace": "    while let Some(node) = worklist.iter().next().copied() {\n        worklist.remove(&node);"},
+    {"file": GU, "find": "                        worklist.push(edge.target())", "replace": "                        worklist.insert(edge.target());"}],
+    "expect": ["R1|checkers::cwe_367::check_cwe|result-of|is_sink_call_reachable_from_source_call"], "desc": "first sink found in hash order ends up in the TOCTOU warning"}))
+CG = L + "analysis/callgraph.rs"
+DTM = L + "intermediate_representation/mod.rs"
+mut("C20", "from_lowercases_specifier", DTM, "        match specifier.as_str() {", "        match specifier.to_ascii_lowercase().as_str() {", ["R2|long-form|Lf"], "specifier lower-cased before the lookup: L conversions become l conversions (double)")
+mut("C24", "calls_from_target_dropped", CG, """            if edges_on_paths_to_target.contains(edge) {
+                Some(callgraph[*edge].tid.clone())""", """            if edges_on_paths_to_target.contains(edge)
+                && callgraph.edge_endpoints(*edge).unwrap().0 != target_node
+            {
+                Some(callgraph[*edge].tid.clone())""", ["R3|result|no-call-on-a-path-is-dropped"], "calls made by the target function are dropped (wrong for recursive targets)")
+
+# ---------------- C06 R7 / C13 R7
+mut("C06", "normalize_equal_content_on_subset", BRK, "                        else if current_brick.get_sequence() == next_brick.get_sequence() {", "                        else if next_brick.get_sequence().is_subset(current_brick.get_sequence()) {", ["R7|normalize|merge_bricks_with_equal_content|precondition"], "rule 4 applied for a subset of the strings")
+mut("C06", "normalize_break_without_min_test", BRK, "                if current_brick.get_min() >= 1 && current_brick.get_max() > current_brick.get_min()", "                if current_brick.get_max() > current_brick.get_min()", [], "rule 5 without min >= 1 (undecided / harmless for min 0: S^0 = empty string)")
+AH = L + "analysis/pointer_inference/state/access_handling.rs"
+mut("C13", "null_zone_includes_minus_1024", AH, """            if (start_index > -1024 && start_index < 1024)
+                || (end_index > -1024 && end_index < 1024)""", """            if (start_index >= -1024 && start_index < 1024)
+                || (end_index >= -1024 && end_index < 1024)""", ["R7|null-zone|start"], "zone closed at -1024")
+mut("C13", "null_zone_refinement_border", AH, "                            &Bitvector::from_i16(1024).into_resize_signed(address_val.bytesize()),", "                            &Bitvector::from_i16(1025).into_resize_signed(address_val.bytesize()),", ["R7|null-zone|refinement|above"], "address 1024 removed although outside the zone")
+mut("C13", "SILENT_null_zone_as_range", AH, """                let new_absolute_val = if start_index > -1024 && start_index < 1024 {""", """                let new_absolute_val = if (-1023..=1023).contains(&start_index) {""", [], "same zone as an inclusive range")
+
 for prop, name, spec in M:
     if name.startswith("SILENT_"):
         spec["silent"] = True
